@@ -39,6 +39,10 @@ def units(tier):
             us.append({"kind": "slot", "slot": si, "from": ei, "to": ei + 40})
     us.append({"kind": "special"})
     us.append({"kind": "history"})
+    from .. import scale
+    for n in scale.sizes(tier):
+        if n <= 8193 or tier == "thorough":
+            us.append({"kind": "scale", "size": n})
     return us
 
 
@@ -587,6 +591,32 @@ def run_unit(unit, tier):
     if unit["kind"] == "history":
         run_history(r, tier)
         return r
+    if unit["kind"] == "scale":
+        # the size axis: generated code on large values (every format of c03.scale_cases that compile() accepts)
+        from .c03 import scale_cases, real_build
+        n = unit["size"]
+        for t, v in scale_cases(n):
+            d = T.mk(t)
+            dc, err = try_compile(d)
+            if dc is None:
+                r.extra["scale-compile-refused"] += 1
+                continue
+            b = real_build(d, v, {})
+            if b[0] != "ok":
+                continue
+            r.states += 1
+            bc = do_build(dc, v, {})
+            if bc != ("ok", b[1]):
+                r.violation("C04/compiled-build-differs/scale:" + T.sig_of(t), {"scale": [T.show(t)[:60], n], "op": "build"},
+                            "%s.build(<%d units>): interpreter %d bytes, compiled %s" % (T.show(t), n, len(b[1]), ("%d bytes" % len(bc[1])) if bc[0] == "ok" else repr(bc)))
+            for data in (b[1], b[1] + b"\x07"):
+                r.states += 1
+                oc, vs = compare(t, d, dc, data, {}, "scale:" + T.sig_of(t), {"scale": [T.show(t)[:60], n, len(data)]})
+                r.case(nontrivial=oc != "interp-rejects", outcome=oc, transitions=2, validated=1)
+                for x in vs:
+                    r.violation(x["sig"], x["case"], x["detail"][:500])
+        r.sample({"scale_size": n})
+        return r
     if unit["kind"] == "terms":
         run_terms(unit, tier, r)
     elif unit["kind"] == "slot":
@@ -618,6 +648,8 @@ def replay(case):
             return []
         return compare(["host", slot[0], X.show(E)], d, dc, case["data"], KW, "%s(%s)" % (slot[0], expr_sig(E)), case)[1]
     r = UnitResult()
+    if "scale" in case:
+        return [v for v in run_unit({"kind": "scale", "size": case["scale"][1]}, "quick").violations if v["case"].get("scale") == case["scale"]]
     if "history" in case:
         run_history(r, "thorough")
         return [v for v in r.violations if v["case"].get("history") == case["history"] and v["case"].get("subject") == case.get("subject")]
